@@ -20,13 +20,13 @@ RULE = ('Reachable removal-enabled states of both classes with JSON-native node 
         'argument decides the class only when the key is deleted from the data. non-trivial = an isolated attributed '
         'node, a multi-run pair and (directed) a reciprocal pair.')
 ASSUMPTIONS = ['e > t', 'node attribute names differ from the id key; attribute values are JSON-native']
-BUDGET = {'quick': {'cases': 8000, 'seconds': 45}, 'thorough': {'cases': 120000, 'seconds': 540}}
+BUDGET = {'quick': {'cases': 10000, 'seconds': 45}, 'thorough': {'cases': 120000, 'seconds': 540}}
 KINDS = ['add', 'add', 'add', 'add', 'add_from', 'path', 'node', 'node', 'node', 'nodes_from', 'recip', 'recip']
 GATTR = st.dictionaries(st.sampled_from(['name', 'meta', 'tags']), gen.ATTR_VALUES, max_size=2)
 
 
 def strategy(tier):
-    return st.tuples(gen.history(max_ops=12, min_ops=3, rejects=False, kinds=KINDS, node_kinds=('int', 'str'), uni=(4, 6)), GATTR,
+    return st.tuples(gen.tiered(tier, max_ops=12, min_ops=3, rejects=False, kinds=KINDS, node_kinds=('int', 'str'), uni=(4, 6)), GATTR,
                      st.sampled_from(['id', 'id', 'nid', 'name'])).map(lambda x: dict(x[0], gattr=x[1], idkey=x[2]))
 
 
